@@ -1127,9 +1127,8 @@ func (g *schemaGenerator) generateEnumType(t *schemas.Type, scope nameScope) (co
 			if primitiveType == "" {
 				primitiveType = valueType
 			} else if primitiveType != valueType {
+				// Keep scanning: the remaining values still have to be primitive.
 				primitiveType = interfaceTypeName
-
-				break
 			}
 		}
 
